@@ -1,3 +1,120 @@
-//! C08 — not yet built
-use crate::ctx::Ctx;
-pub fn run(c: &mut Ctx) { c.notes.push("C08: not implemented".into()); }
+//! C08 — loading is deterministic under every thread schedule.
+//! Hook H1 (lopdf::verif_api::verif_hooks::MERGE_ORDER) enumerates every completion order of the
+//! per-container blocks; rayon pools of 1..16 threads sample real schedules; the sequential
+//! build (no rayon) runs the same cases.
+use crate::codec::*;
+use crate::ctx::{guard, Ctx};
+use crate::props::c01::load_reply;
+use crate::props::c02::*;
+use crate::props::c07::gen_history;
+use crate::refwriter::*;
+use crate::rng::Rng;
+use lopdf::verif_api::verif_hooks::{LAST_CONTAINERS, MERGE_ORDER};
+use lopdf::{Dictionary, Document, Object};
+use serde_json::json;
+
+fn digest(d: &Document) -> String {
+    format!("{} {} {} {}", d.max_id, d.version, show_obj(&Object::Dictionary(d.trailer.clone())), show_objects(d.objects.iter()))
+}
+fn load_with_order(bytes: &[u8], order: Option<Vec<usize>>) -> Result<String, String> {
+    *MERGE_ORDER.lock().unwrap() = order;
+    let r = guard(|| Document::load_mem(bytes));
+    *MERGE_ORDER.lock().unwrap() = None;
+    match r { Ok(Ok(d)) => Ok(digest(&d)), Ok(Err(e)) => Err(format!("{:?}", e)), Err((site, msg)) => Err(format!("panic@{} {}", site, msg)) }
+}
+fn permutations(n: usize) -> Vec<Vec<usize>> {
+    fn rec(cur: &mut Vec<usize>, used: &mut Vec<bool>, n: usize, out: &mut Vec<Vec<usize>>) {
+        if cur.len() == n { out.push(cur.clone()); return; }
+        for i in 0..n { if !used[i] { used[i] = true; cur.push(i); rec(cur, used, n, out); cur.pop(); used[i] = false; } }
+    }
+    let mut out = vec![]; rec(&mut vec![], &mut vec![false; n], n, &mut out); out
+}
+
+#[cfg(feature = "par")]
+fn load_in_pool(bytes: &[u8], threads: usize) -> Result<String, String> {
+    let pool = rayon::ThreadPoolBuilder::new().num_threads(threads).build().map_err(|e| e.to_string())?;
+    pool.install(|| load_with_order(bytes, None))
+}
+#[cfg(not(feature = "par"))]
+fn load_in_pool(bytes: &[u8], _threads: usize) -> Result<String, String> { load_with_order(bytes, None) }
+
+pub fn run(c: &mut Ctx) {
+    c.rule = "files with 1..6 object-stream containers (reference writer; plain and multi-revision, zero-length streams, indirect Lengths), \
+no object number in two containers in the main stream: EVERY permutation of the container blocks through hook H1 (<=4 containers quick, <=6 thorough) \
+must load the same document = the abstract document = the model's `load_perm`; repeated loads on rayon pools of 1,2,3,4,8,16 threads; the same cases \
+run in the no-default-features (sequential) build. Non-trivial = file with >= 2 containers.".into();
+    let max_perm_containers = if c.quick() { 4 } else { 6 };
+    let mut counters = Counters::new();
+    let mut perms_run = 0u64; let mut pool_loads = 0u64;
+    for i in 0..c.n(150, 1500) {
+        let Some(mut r) = c.case("objstm", i) else { continue };
+        // many small objects so that several containers appear
+        let (revs, latest) = if r.chance(1, 3) { let (mut revs, latest) = gen_history(&mut r, 1); revs.truncate(2); (revs, latest) } else { let o = gen_aobjects(&mut r, 14, 0); let e = gen_trailer_extra(&mut r, &o); (vec![Revision { objects: o.clone(), trailer_extra: e }], o) };
+        let mut style = gen_style(&mut r); style.xref = XrefStyle::Stream; style.objstm = true; style.compress = r.chance(1, 4); style.junk_before_header = false;
+        let which = r.usize(revs.len());
+        let w = write_file_with(&mut r, &mut counters, &style, "1.7", &revs, &|ri| ri == which);
+        let helper_from = latest.keys().map(|k| k.0).max().unwrap() + 1;
+        let base = match load_with_order(&w.bytes, None) { Ok(d) => d, Err(e) => { c.oracle_fail("load-error", &e, json!({"file": hex(&w.bytes)})); continue; } };
+        let n = LAST_CONTAINERS.lock().unwrap().len();
+        c.count(&format!("objstm.containers_{}", n.min(7)));
+        if n >= 2 { c.nontrivial(&format!("{}", i)); }
+        // oracle against the abstract document
+        if let Ok(d) = Document::load_mem(&w.bytes) { if let Some((sig, diff)) = compare_abstract(&d, &latest, &revs[0].trailer_extra, "1.7", helper_from) { c.oracle_fail(&sig, &diff, json!({"file": hex(&w.bytes)})); } }
+        c.corr(format!("load {}", hex_tok(&w.bytes)), load_reply(&w.bytes));
+        // every completion order
+        if n >= 2 && n <= max_perm_containers {
+            let perms = permutations(n);
+            for (pi, p) in perms.iter().enumerate() {
+                perms_run += 1;
+                match load_with_order(&w.bytes, Some(p.clone())) {
+                    Ok(d) => {
+                        if d != base { c.oracle_fail("order-dependent", &format!("merge order {:?} loads a different document than the default order", p), json!({"file": hex(&w.bytes), "order": p})); break; }
+                        // model under the same order (sampled to bound the request volume)
+                        if pi < 6 || pi + 1 == perms.len() {
+                            let reply = { *MERGE_ORDER.lock().unwrap() = Some(p.clone()); let s = load_reply(&w.bytes); *MERGE_ORDER.lock().unwrap() = None; s };
+                            c.corr(format!("load_perm {} {}", p.iter().map(|x| x.to_string()).collect::<Vec<_>>().join(","), hex_tok(&w.bytes)), reply);
+                        }
+                    }
+                    Err(e) => { c.oracle_fail("order-dependent", &format!("merge order {:?}: {}", p, e), json!({"file": hex(&w.bytes)})); break; }
+                }
+            }
+        }
+        // real schedules
+        if i % 3 == 0 {
+            for t in [1usize, 2, 3, 4, 8, 16] {
+                for _rep in 0..2 {
+                    pool_loads += 1;
+                    match load_in_pool(&w.bytes, t) { Ok(d) => if d != base { c.oracle_fail("schedule-dependent", &format!("load on a pool of {} threads differs", t), json!({"file": hex(&w.bytes)})); }, Err(e) => c.oracle_fail("schedule-dependent", &e, json!({})) }
+                }
+            }
+        }
+        if i < 2 { c.sample(json!({"containers": n, "file_len": w.bytes.len(), "revisions": revs.len()})); }
+    }
+    // ---- witness F-C08-a: the same number in two containers -> two orders, two documents
+    if let Some(mut r) = c.case("witness", 0) {
+        let mut base = AObjects::new();
+        base.insert((1, 0), AObj { obj: Object::Dictionary(Dictionary::new()), stream: None });
+        base.insert((2, 0), AObj { obj: Object::string_literal("old"), stream: None });
+        let mut upd = AObjects::new();
+        upd.insert((2, 0), AObj { obj: Object::string_literal("new"), stream: None });
+        let mut extra = Dictionary::new(); extra.set("Root", Object::Reference((1, 0)));
+        let revs = vec![Revision { objects: base, trailer_extra: extra.clone() }, Revision { objects: upd, trailer_extra: extra }];
+        let style = Style { xref: XrefStyle::Stream, objstm: true, compress: false, indirect_length: false, raw_cr_in_strings: false, junk_before_header: false, lexical_freedom: false };
+        let mut reproduced = false;
+        for _ in 0..40 {
+            let w = write_file(&mut r, &mut counters, &style, "1.6", &revs);
+            if w.containers.len() < 2 { continue; }
+            let a = load_with_order(&w.bytes, Some(vec![0, 1])); let b = load_with_order(&w.bytes, Some(vec![1, 0]));
+            if let (Ok(a), Ok(b)) = (a, b) { if a != b { reproduced = true;
+                c.corr(format!("load_perm 0,1 {}", hex_tok(&w.bytes)), { *MERGE_ORDER.lock().unwrap() = Some(vec![0, 1]); let s = load_reply(&w.bytes); *MERGE_ORDER.lock().unwrap() = None; s });
+                c.corr(format!("load_perm 1,0 {}", hex_tok(&w.bytes)), { *MERGE_ORDER.lock().unwrap() = Some(vec![1, 0]); let s = load_reply(&w.bytes); *MERGE_ORDER.lock().unwrap() = None; s });
+                break; } }
+        }
+        c.witness("F-C08-a", reproduced, "object 2 is a member of two containers: merge orders [0,1] and [1,0] load different documents");
+    }
+    c.extra.insert("permutations_run".into(), json!(perms_run));
+    c.extra.insert("pool_loads".into(), json!(pool_loads));
+    c.extra.insert("build".into(), json!(if cfg!(feature = "par") { "rayon" } else { "sequential" }));
+    for (k, v) in counters { c.count_n(&format!("choice.{}", k), v); }
+    let _ = Rng::new(0);
+}
